@@ -10,6 +10,7 @@ import (
 
 	"verifharness/internal/core"
 	"verifharness/internal/engine"
+	"verifharness/internal/sgen"
 )
 
 func foldRep(r rune) rune {
@@ -73,7 +74,7 @@ func validExportedGo(s string) bool {
 
 func init() {
 	register("C14", func(c *engine.Ctx) {
-		c.Rule = "function level: Identifierize (real, through the verif export shim) vs the model on every sequence of rune classes {lower with upper image, lower without, upper, caseless letter, decimal digit, other numeral, delimiter} up to length 5 (6 in thorough) realised with representative runes, with and without capitalizations chosen to equal a part, plus random Unicode strings; judged: inside the hypotheses of the theorem ident_valid (every rune satisfies TableOK: cased ⇒ letter, numeral ⇒ decimal digit, the upper image of a letter/digit is a letter/digit and not lower-case-only) the result is a valid exported Go identifier. TableOK is evaluated for all 1,114,112 code points (exceptions counted) and for every admitted code point the real function is run on three names containing it. Program level: sibling names that collide after normalisation (2..6 per set) and type-name collisions (up to 4) must give distinct field / type names, tags with the exact names, and a decode that binds every key to its own field; key fidelity: every punctuation character encoding/json admits in a tag name (28) inside / before / after letters, and names that look like format verbs, template actions or escapes (%s, 100%, %%, {{.}}, $1), required and optional, must round-trip. Distinct = distinct (class sequence, capitalization kind) / collision sets."
+		c.Rule = "function level: Identifierize (real, through the verif export shim) vs the model on every sequence of rune classes {lower with upper image, lower without, upper, caseless letter, decimal digit, other numeral, delimiter} up to length 5 (6 in thorough) realised with representative runes, with and without capitalizations chosen to equal a part, plus random Unicode strings; judged: inside the hypotheses of the theorem ident_valid (every rune satisfies TableOK: cased ⇒ letter, numeral ⇒ decimal digit, the upper image of a letter/digit is a letter/digit and not lower-case-only) the result is a valid exported Go identifier. TableOK is evaluated for all 1,114,112 code points (exceptions counted) and for every admitted code point the real function is run on three names containing it. Program level: sibling names that collide after normalisation (2..6 per set) and type-name collisions (up to 4 flat; three colliding definitions where one is first reached through a $ref inside another that is still being generated, all ordered pairs and chains) must give distinct field / type names, tags with the exact names, and a decode that binds every key to its own field; key fidelity: every punctuation character encoding/json admits in a tag name (28) inside / before / after letters, and names that look like format verbs, template actions or escapes (%s, 100%, %%, {{.}}, $1), required and optional, must round-trip. Distinct = distinct (class sequence, capitalization kind) / collision sets."
 		c.Proofs([]string{"GJS.Props.C14"}, []string{
 			"GJS.Props.C14.splitIdent_spec", "GJS.Props.C14.ident_valid", "GJS.Props.C14.ident_valid_caps", "GJS.Props.C14.field_names_distinct", "GJS.Props.C14.sfx_inj", "GJS.Props.C14.KF_user_identifier_collides", "GJS.Props.C14.never_empty", "GJS.Props.C14.leading_repair", "GJS.Props.C14.leading_kept",
 			"GJS.Props.C14.capitalize_plain", "GJS.Props.C14.tag_is_raw_name", "GJS.Props.C14.probeName_fresh", "GJS.Props.C14.KF_no_upper_image",
@@ -291,6 +292,37 @@ func init() {
 			}
 			pcs = append(pcs, baseCase("c14-type-collisions", M{"type": "object", "properties": props}, []any{doc}, fmt.Sprintf("n=%d", n)))
 		}
+		// three definitions whose names collide after normalisation, one of them reached FIRST through a $ref inside
+		// another that is still being generated (every ordered pair i -> j), plus a chain i -> j -> k
+		collNames := []string{"ShippingAddress", "shippingAddress", "shipping_address"}
+		type edge struct{ from, to int }
+		var edgeSets [][]edge
+		for i := 0; i < 3; i++ {
+			for j := 0; j < 3; j++ {
+				if i != j {
+					edgeSets = append(edgeSets, []edge{{i, j}})
+				}
+			}
+		}
+		edgeSets = append(edgeSets, []edge{{0, 1}, {1, 2}}, []edge{{1, 2}, {2, 0}}, []edge{{0, 2}, {0, 1}}, []edge{{1, 0}, {1, 2}})
+		for _, es := range edgeSets {
+			defs := M{}
+			for i, nm := range collNames {
+				defs[nm] = M{"type": "object", "properties": M{fmt.Sprintf("own%d", i): M{"type": "integer"}}, "required": []any{fmt.Sprintf("own%d", i)}}
+			}
+			val := func(i int) M { return M{fmt.Sprintf("own%d", i): 10 + i} }
+			vals := []M{val(0), val(1), val(2)}
+			// innermost first, so that a referrer embeds the final value of its target
+			for k := len(es) - 1; k >= 0; k-- {
+				e := es[k]
+				key := fmt.Sprintf("r%d", e.to)
+				defs[collNames[e.from]].(M)["properties"].(M)[key] = M{"$ref": "#/$defs/" + collNames[e.to]}
+				vals[e.from][key] = sgen.DeepCopy(vals[e.to])
+			}
+			schema := M{"type": "object", "properties": M{"p0": M{"$ref": "#/$defs/" + collNames[0]}, "p1": M{"$ref": "#/$defs/" + collNames[1]}, "p2": M{"$ref": "#/$defs/" + collNames[2]}}, "$defs": defs}
+			doc := M{"p0": vals[0], "p1": vals[1], "p2": vals[2]}
+			pcs = append(pcs, baseCase("c14-type-collisions-through-refs", schema, []any{doc}, fmt.Sprint(es)))
+		}
 		// key fidelity: every character encoding/json admits in a tag name, inside / before / after letters, and
 		// names that look like format verbs, template actions or escapes: the tag must carry the exact key
 		const tagPunct = "!#$%&()*+-./:;<=>?@[]^_{|}~ "
@@ -319,6 +351,11 @@ func init() {
 		for _, r := range res {
 			if r.Unsupported {
 				c.Count("c14", "outside-model-scope (unsupported property name)")
+				continue
+			}
+			if r.RunsJ == nil && r.CompileErr != "" && containsStr(r.ModelIssues, "redeclared-type") && knownListed(c, "K30-in-progress-name-reused") {
+				// the model predicts the redeclaration (a definition in progress reaches a colliding one): listed finding K30
+				c.Count("c14", "K30 region (model predicts the redeclaration)")
 				continue
 			}
 			if r.RunsJ == nil {
@@ -374,4 +411,22 @@ func inIdentHypotheses(s string) bool {
 		}
 	}
 	return true
+}
+
+func containsStr(xs []string, x string) bool {
+	for _, y := range xs {
+		if y == x {
+			return true
+		}
+	}
+	return false
+}
+
+func knownListed(c *engine.Ctx, id string) bool {
+	for _, k := range c.KnownFor() {
+		if k.ID == id {
+			return true
+		}
+	}
+	return false
 }
